@@ -55,7 +55,7 @@ fn same(a: Point, b: Point) -> bool {
 // ---------------------------------------------------------------------------
 // C11
 
-//@ harness: o11_1_scale_line props=C11 tier=quick obl=O11.1 timeout=900 mem=10
+//@ harness: o11_1_scale_line props=C11 tier=quick obl=O11.1 timeout=800 mem=10
 //@ desc: Fragment::scale on Line and MarkerLine (lattice payload <= 400 cells, scale = any positive f32 with <= 8 significant bits and exponent -4..10): every coordinate is multiplied by the scale, endpoints are not reordered, dashedness and markers unchanged, variant unchanged
 //@ encodes: Fragment::scale, Line::scale, MarkerLine::scale, Point::scale
 #[kani::proof]
@@ -86,7 +86,7 @@ fn o11_1_scale_line() {
     kani::cover!(s == 0.5, "scale 0.5 is in the explored set");
 }
 
-//@ harness: o11_1_scale_arc_circle props=C11 tier=quick obl=O11.1 timeout=900 mem=10
+//@ harness: o11_1_scale_arc_circle props=C11 tier=quick obl=O11.1 timeout=800 mem=10
 //@ desc: Fragment::scale on Arc and Circle (lattice payloads, radius n/8 <= 50 cells, same scale set): endpoints/centre and radius multiplied by the scale; sweep/major flags, fill flag unchanged
 //@ encodes: Fragment::scale, Arc::scale, Circle::scale
 #[kani::proof]
@@ -116,7 +116,7 @@ fn o11_1_scale_arc_circle() {
     }
 }
 
-//@ harness: o11_1_scale_rect props=C11 tier=quick obl=O11.1 timeout=1500 mem=10
+//@ harness: o11_1_scale_rect props=C11 tier=quick obl=O11.1 timeout=800 mem=10
 //@ desc: Fragment::scale on Rect, sharp and rounded (lattice corners <= 400 cells, radius n/8, same scale set): corners and rx multiplied by the scale, fill/dash flags unchanged
 //@ encodes: Fragment::scale, Rect::scale
 #[kani::proof]
@@ -166,7 +166,7 @@ fn o11_2_rect_size_linear() {
     assert!(r.width() == w0 * s && r.height() == h0 * s, "O11.2 rendered Rect width/height scale linearly");
 }
 
-//@ harness: o11_1_scale_polygon_text props=C11 tier=quick obl=O11.1 timeout=1200 mem=12
+//@ harness: o11_1_scale_polygon_text props=C11 tier=quick obl=O11.1 timeout=800 mem=12
 //@ desc: Fragment::scale on Polygon (3 lattice points, fill flag, one tag), Text and CellText (1 char): every point / the anchor multiplied by the scale; CellText becomes a Text anchored at scale x (cell point q); fill, tags, text unchanged
 //@ encodes: Fragment::scale, Polygon::scale, Text::scale, From<CellText> for Text
 #[kani::proof]
@@ -234,7 +234,7 @@ fn moved(p: Point, k: i32, n: i32) -> Point {
     Point::new(p.x + k as f32, p.y + 2.0 * n as f32)
 }
 
-//@ harness: o6_2_abs_position_shapes props=C06 tier=quick obl=O6.2 timeout=1200 mem=12
+//@ harness: o6_2_abs_position_shapes props=C06 tier=quick obl=O6.2 timeout=800 mem=12
 //@ desc: Fragment::absolute_position(cell (k<=400, n<=200)) on Line, MarkerLine, Arc, Circle, Rect (sharp/rounded) with eighth-unit lattice payloads around the cell: adds exactly (k, 2n) to every coordinate; radius, flags, markers, variant unchanged; endpoints not reordered
 //@ encodes: Fragment::absolute_position, Line/MarkerLine/Arc/Circle/Rect::absolute_position, Cell::absolute_position
 #[kani::proof]
@@ -285,7 +285,7 @@ fn o6_2_abs_position_shapes() {
     }
 }
 
-//@ harness: o6_2_abs_position_poly_text props=C06 tier=quick obl=O6.2 timeout=1200 mem=12
+//@ harness: o6_2_abs_position_poly_text props=C06 tier=quick obl=O6.2 timeout=800 mem=12
 //@ desc: Fragment::absolute_position(cell (k<=400, n<=200)) on Polygon (3 points), Text, CellText: adds exactly (k, 2n) to every point / (k, n) to the start cell; fill, tags, content unchanged
 //@ encodes: Fragment::absolute_position, Polygon::absolute_position, Text::absolute_position, CellText::absolute_position
 #[kani::proof]
@@ -387,7 +387,7 @@ fn fit_case(cont_rect: bool, kind: u8) {
     assert!(got == expected, "O10.4 can_fit is exactly bounding-box containment");
 }
 
-//@ harness: o10_4_can_fit_rect props=C10,C16 tier=quick obl=O10.4 timeout=900 mem=10
+//@ harness: o10_4_can_fit_rect props=C10,C16 tier=quick obl=O10.4 timeout=800 mem=10
 //@ desc: container Rect, content Rect / Line / Circle (each combination a separate call with concrete variants), lattice payloads 0..64 quarter units at a cell offset <= 64x64: Fragment::can_fit <=> the content's bounding box lies inside the container's (integer oracle)
 //@ encodes: Fragment::can_fit, Rect::bounds, Circle::bounds, Line::bounds
 #[kani::proof]
@@ -402,7 +402,7 @@ fn o10_4_can_fit_rect() {
     }
 }
 
-//@ harness: o10_4_can_fit_circle props=C10,C16 tier=quick obl=O10.4 timeout=900 mem=10
+//@ harness: o10_4_can_fit_circle props=C10,C16 tier=quick obl=O10.4 timeout=800 mem=10
 //@ desc: container Circle, content Rect / Line / Circle, same bounds as o10_4_can_fit_rect
 //@ encodes: Fragment::can_fit, Rect::bounds, Circle::bounds, Line::bounds
 #[kani::proof]
@@ -420,7 +420,7 @@ fn o10_4_can_fit_circle() {
 // ---------------------------------------------------------------------------
 // C05: grouping predicate between lines and arcs
 
-//@ harness: o5_5_contact_line_arc props=C05 tier=quick obl=O5.5 timeout=1200 mem=12
+//@ harness: o5_5_contact_line_arc props=C05 tier=quick obl=O5.5 timeout=800 mem=12
 //@ desc: Fragment::is_contacting between a lattice Line and a lattice Arc (coords 0..32 quarter units + offset <= 64 cells) <=> they share an endpoint; between two Arcs likewise; symmetric
 //@ encodes: Fragment::is_contacting, Line::is_touching_arc, Arc::is_touching
 #[kani::proof]
@@ -445,7 +445,7 @@ fn o5_5_contact_line_arc() {
 // ---------------------------------------------------------------------------
 // C14: the Fragment-level dispatch of line + bullet circle
 
-//@ harness: o14_6_merge_dispatch_circle props=C14 tier=quick obl=O14.4 timeout=900 mem=12
+//@ harness: o14_6_merge_dispatch_circle props=C14 tier=quick obl=O14.4 timeout=800 mem=12
 //@ desc: Fragment::merge and Fragment::is_contacting on a lattice Line and a bullet Circle (circle at a cell centre, radius 0.25..0.75, vertical or horizontal line of 1..16 quarter-unit steps ending 0..4 steps from the centre): merge(line, circle) and merge(circle, line) both give the same MarkerLine ending at the circle centre (the dispatcher routes both argument orders to Line::merge_circle); is_contacting is symmetric; atan stubbed by atan_axis
 //@ encodes: Fragment::merge, Fragment::is_contacting, Line::merge_circle, Line::is_touching_circle
 #[kani::proof]
